@@ -434,10 +434,10 @@ package resource
 //@   ensures [new-item] err == nil ==> fresh(recv.byId[key])
 //@   ensures [items-immutable] forall p *item :: allocated(p) ==> p.body == old(p.body) && p.changeTime == old(p.changeTime)
 //@   // exactly one event, describing the transition
-//@   ensures [one-event] err == nil ==> calls(Send) == old(calls(Send)) + 1
-//@   ensures [event] err == nil ==> istype(lastarg(Send, 2), *CollectionChange) && ev.Id == key &&
+//@   ensures [one-event@C01+C04] err == nil ==> calls(Send) == old(calls(Send)) + 1
+//@   ensures [event@C01+C04] err == nil ==> istype(lastarg(Send, 2), *CollectionChange) && ev.Id == key &&
 //@   |   ev.NewValue == res && ev.ChangeTime == recv.byId[key].changeTime
-//@   ensures [event-kind] err == nil ==> (old(has(recv.byId, key)) ==> ev.ChangeType == types.ChangeType_UPDATE && ev.OldValue == old(recv.byId[key].body)) &&
+//@   ensures [event-kind@C01+C04] err == nil ==> (old(has(recv.byId, key)) ==> ev.ChangeType == types.ChangeType_UPDATE && ev.OldValue == old(recv.byId[key].body)) &&
 //@   |   (!old(has(recv.byId, key)) ==> ev.ChangeType == types.ChangeType_ADD && isnil(ev.OldValue))
 //@   // preconditions of the write
 //@   ensures [not-found] !old(has(recv.byId, key)) && !writeRequest.createIfAbsent ==> err != nil
@@ -478,7 +478,7 @@ package resource
 //@   ensures [absent-allowed] !old(has(recv.byId, key)) && args.allowMissing ==> err == nil
 //@   ensures [removed] err == nil && old(has(recv.byId, key)) ==> !has(recv.byId, key) && res == old(recv.byId[key].body) &&
 //@   |   (forall k string :: k != key ==> has(recv.byId, k) == old(has(recv.byId, k)) && recv.byId[k] == old(recv.byId[k]))
-//@   ensures [one-event] err == nil && old(has(recv.byId, key)) ==> calls(Send) == old(calls(Send)) + 1 && istype(lastarg(Send, 2), *CollectionChange) &&
+//@   ensures [one-event@C01+C04] err == nil && old(has(recv.byId, key)) ==> calls(Send) == old(calls(Send)) + 1 && istype(lastarg(Send, 2), *CollectionChange) &&
 //@   |   ev.Id == key && ev.ChangeType == types.ChangeType_REMOVE && ev.OldValue == res && isnil(ev.NewValue)
 //@   ensures [check-honoured] old(has(recv.byId, key)) && args.expectedCheck != nil && args.expectedCheck(old(recv.byId[key].body)) != nil ==> err != nil
 //@   ensures [value-honoured] old(has(recv.byId, key)) && !isnil(args.expectedValue) && !equalmsg(old(recv.byId[key].body), args.expectedValue) ==> err != nil
@@ -566,3 +566,16 @@ package resource
 //@   trusted
 //@   ensures res != nil
 //@   modifies nothing
+//@
+//@ // ---- the goroutine behind PullID: only events of the one item are forwarded, as value changes carrying the event's new
+//@ // value, time and seed flags; a REMOVE of the item is never forwarded (the stream ends there); the output is closed on
+//@ // every exit path (C04, C10) ----
+//@ property C04 C10
+//@ func (*Collection).PullID$1()
+//@   requires c != nil && wfColl(c) && send != nil && !chanClosed(send) && !isnil(ctx) && readOptsOK(opts)
+//@   onrecv *CollectionChange: recvd != nil     // Collection.Pull$1#step.send.send.seed
+//@   onsend send [same-item]: sent != nil && change != nil && change.Id == id && change.ChangeType != types.ChangeType_REMOVE && !isnil(change.NewValue) &&
+//@   |   sent.Value == change.NewValue && sent.ChangeTime == change.ChangeTime && sent.SeedValue == change.SeedValue && sent.LastSeedValue == change.LastSeedValue
+//@   ensures [closed] chanClosed(send)
+//@   loop 0:
+//@     invariant !chanClosed(send) && !isnil(ctx) && send != nil
